@@ -1,6 +1,10 @@
 import Driver.Util
+import Driver.Route
+import Driver.Group
 -- engines of work area Routing: import your Driver.<Engine> modules above and list them here
 namespace Driver.Reg.Routing
 def engines : List (String × IO UInt32) := [
+  ("route", Driver.runEngine Driver.Route.engine),
+  ("group", Driver.runEngine Driver.Group.engine)
 ]
 end Driver.Reg.Routing
